@@ -1,20 +1,61 @@
-(* Props/C14.v — Type inference commutes with serialisation.  (interim: what inference stores survives a file
-   unchanged in value; the regain theorems from Proofs/LayoutProofs.v / SimProofs.v are added when complete) *)
-From NIR Require Import Model.Serial Proofs.SerialProofs Proofs.InferProofs.
+(* Props/C14.v — Type inference commutes with serialisation. *)
+From NIR Require Import Model.Serial Proofs.SerialProofs Proofs.InferProofs Proofs.LayoutProofs
+                        Proofs.SimProofs.
 
-(* the Conv1d annotation stored by inference (a numpy integer) is a fixed point of the file round trip *)
-Theorem c14_conv1d_annotation_survives : forall n, norm_val (np_int n) = Ok (np_int n).
-Proof. reflexivity. Qed.
+(* (a) what inference stores survives a file: the Conv1d annotation (a numpy integer) is a fixed point of the
+   round trip; the Conv2d annotation (a tuple of numpy integers) comes back as the same integers *)
+Theorem c14_annotations_survive_file :
+  (forall n, norm_val (np_int n) = Ok (np_int n)) /\
+  (forall a b v', norm_val (VTuple [np_int a; np_int b]) = Ok v' -> seq_view v' = Some [a; b]).
+Proof. exact stored_annotation_survives_file. Qed.
 
-(* the Conv2d annotation (a tuple of numpy integers) comes back as the same integers *)
-Theorem c14_conv2d_annotation_survives : forall a b v',
-  norm_val (VTuple [np_int a; np_int b]) = Ok v' -> seq_view v' = Some [a; b].
-Proof.
-  intros a b v' H. apply (norm_val_ints [np_int a; np_int b] [a; b] v'); [reflexivity|discriminate|left; exact H].
-Qed.
+(* (b) ANNOTATIONS ARE REGAINED WITHOUT INFERENCE: if inference typed a Conv whose annotation was erased, then
+   constructing the Conv from the fields inference left behind yields the same input type and the SAME output type *)
+Theorem c14_conv1d_regain : forall fs pre c n co k fs' tout,
+  derive_output KConv1d fs pre [("input", TArr [c; n])] = (fs', Some tout, None) ->
+  fld_shape "weight" fs = Ok [co; c; k] ->
+  (forall f, In f (keys fs) -> In f (class_keys KConv1d)) ->
+  assoc "groups" fs <> None -> assoc "bias" fs <> None ->
+  exists fs3, construct KConv1d fs' = Ok (Leaf KConv1d fs3 (Some [("input", TArr [c; n])]) (Some tout)).
+Proof. exact conv1d_regain. Qed.
 
-(* inference only ever assigns types and a Conv's input_shape: every other field that reaches the file is
-   what it was before inference *)
+Theorem c14_conv2d_regain : forall fs pre c n1 n2 co k1 k2 fs' tout,
+  derive_output KConv2d fs pre [("input", TArr [c; n1; n2])] = (fs', Some tout, None) ->
+  fld_shape "weight" fs = Ok [co; c; k1; k2] ->
+  (forall f, In f (keys fs) -> In f (class_keys KConv2d)) ->
+  assoc "groups" fs <> None -> assoc "bias" fs <> None ->
+  fld "input_shape" fs' = Ok (VTuple [np_int n1; np_int n2]) /\
+  exists fs3, construct KConv2d fs' = Ok (Leaf KConv2d fs3 (Some [("input", TArr [c; n1; n2])]) (Some tout)).
+Proof. exact conv2d_regain. Qed.
+
+(* ... also after the stored pair went through a file (it is then an int64 array) *)
+Theorem c14_conv2d_regain_after_file : forall fs pre c n1 n2 co k1 k2 fs' tout fs2 v',
+  derive_output KConv2d fs pre [("input", TArr [c; n1; n2])] = (fs', Some tout, None) ->
+  fld_shape "weight" fs = Ok [co; c; k1; k2] ->
+  norm_val (VTuple [np_int n1; np_int n2]) = Ok v' ->
+  fld "input_shape" fs2 = Ok v' ->
+  agree_on ["weight"; "stride"; "padding"; "dilation"] fs' fs2 ->
+  exists fs3,
+    post_init KConv2d fs2 = Ok (Leaf KConv2d fs3 (Some [("input", TArr [c; n1; n2])]) (Some tout)).
+Proof. exact conv2d_regain_file. Qed.
+
+(* (c) the constructors (hence everything inference later reads: types and hyper-parameters) only look at
+   numeric views, which the round trip preserves: similar field lists give similar nodes with equal types *)
+Theorem c14_constructors_respect_similarity : forall k fs fs',
+  fields_sim fs fs' -> side k fs fs' -> res_sim (post_init k fs) (post_init k fs').
+Proof. exact post_init_sim. Qed.
+
+Theorem c14_round_trip_values_are_similar : forall v v',
+  norm_val v = Ok v' -> roundtrip_exception v = false -> vsim v v'.
+Proof. exact norm_val_vsim. Qed.
+
+(* (d) the shape arithmetic inference uses is blind to the container of a hyper-parameter *)
+Theorem c14_conv_arithmetic_respects_similarity : forall inp inp' pad pad' dil dil' ker ker' st st',
+  hp_sim inp inp' -> hp_sim pad pad' -> hp_sim dil dil' -> hp_sim ker ker' -> hp_sim st st' ->
+  conv_out inp pad dil ker st = conv_out inp' pad' dil' ker' st'.
+Proof. exact hp_sim_conv_out. Qed.
+
+(* (e) inference only ever assigns types and a Conv's input_shape *)
 Theorem c14_inference_changes_only_annotations : forall fuel es st k n, assoc k (st_ch st) = Some n ->
   exists n', assoc k (st_ch (fst (run fuel es st))) = Some n' /\
     node_kind n' = node_kind n /\
@@ -24,6 +65,14 @@ Proof.
   exists n'. repeat split; assumption.
 Qed.
 
-Print Assumptions c14_conv1d_annotation_survives.
-Print Assumptions c14_conv2d_annotation_survives.
+(* The loop-level statement "types (infer (rt g)) = types (infer g)" for every graph is NOT assembled into one
+   theorem here; it is checked on the code for all interleavings up to length 4. *)
+
+Print Assumptions c14_annotations_survive_file.
+Print Assumptions c14_conv1d_regain.
+Print Assumptions c14_conv2d_regain.
+Print Assumptions c14_conv2d_regain_after_file.
+Print Assumptions c14_constructors_respect_similarity.
+Print Assumptions c14_round_trip_values_are_similar.
+Print Assumptions c14_conv_arithmetic_respects_similarity.
 Print Assumptions c14_inference_changes_only_annotations.
